@@ -320,6 +320,9 @@ pub fn run_history(ctx: &mut Ctx, project: Project, cfg: &Config, hidx: u64, ste
     let mut current: BTreeMap<PathBuf, Option<String>> = BTreeMap::new();
     let mut log: Vec<serde_json::Value> = vec![];
     let mut pending_repairs: Vec<(usize, PathBuf, String)> = vec![];
+    // Sensitivity of the observation: how often the compared output differs from the previous
+    // compared output of the same history (an oracle that never sees a change decides nothing).
+    let mut prev_obs: Option<u64> = None;
     for step in 0..steps {
         let nonce = hidx * 1000 + step as u64;
         // A syntax-breaking edit is repaired k steps later.
@@ -405,6 +408,11 @@ pub fn run_history(ctx: &mut Ctx, project: Project, cfg: &Config, hidx: u64, ste
             );
             return;
         }
+        let h = fnv(format!("{}|{:?}", fresh_obs.0, fresh_obs.1).as_bytes());
+        if prev_obs.is_some_and(|p| p != h) {
+            ctx.count("comparisons_where_output_changed_since_previous", 1);
+        }
+        prev_obs = Some(h);
         // Non-trivial: the incremental database did less work than the fresh one for this state.
         if inc_executed * 10 < fresh_executed * 9 {
             ctx.nontrivial(fnv_str(&format!("{}|{hidx}|{step}|{}", project.name(), fnv(inc_obs.0.as_bytes()))));
